@@ -126,9 +126,20 @@ def monitor(lines, out):
         return "%d accepted metrics were never acknowledged (e.g. %r) but %d drops were counted: a batch was skipped or a drop not counted" % (len(missing), missing[:3], drops)
     if set(acked) - set(sent):
         return "acknowledged metrics that were never dispatched: %r" % list(set(acked) - set(sent))[:3]
-    # per series: acknowledged in the order received
+    # per series: acknowledged in the order received. Points handed over by concurrent callers (`mbg`: one goroutine each, as
+    # separate input connections would) have no receive order among themselves: which of two parked callers gets into the buffer
+    # first is the scheduler's choice, so the order is only required of the points dispatched one after the other (`m`)
+    concurrent = set()
+    for l in lines:
+        f = l.split()
+        if f[0] == "mbg":
+            toks = bytes.fromhex(f[1]).strip().split()
+            if len(toks) == 3 and toks[2].isdigit():
+                concurrent.add((toks[0].decode(), int(toks[2])))
     last = {}
     for name, t in acked:
+        if (name, t) in concurrent:
+            continue
         if t < last.get(name, 0):
             return "series %s: point %d acknowledged after point %d (order not kept)" % (name, t, last[name])
         last[name] = max(last.get(name, 0), t)
@@ -142,7 +153,7 @@ def run(ctx):
     ctx.lean(["Crng.Props.C17"], ["Crng.Props.C17.retry_never_skips", "Crng.Props.C17.acked_prefix", "Crng.Props.C17.flush_acks", "Crng.Props.C17.shutdown_drains",
                                   "Crng.Props.C17.shutdown_returns", "Crng.Props.C17.old_shutdown_hangs"],
              ties=["Crng.Tie.C17"])
-    ctx.stream("worker-exact", "gnet", exact_cases(ctx.rng("gx"), ctx.scale(40, 600)), monitor=monitor, spec_exact=True, shrink=False, timeout=ctx.scale(300, 3000),
+    ctx.stream("worker-exact", "gnet", exact_cases(ctx.rng("gx"), ctx.scale(40, 600)), monitor=monitor, spec_exact=True, shrink=False, timeout=ctx.scale(300, 3000), confirm=2,
                classify=lambda l, o: "posts=%d" % sum(1 for x in o if x.startswith("post")))
     ctx.stream("route-blocking", "gnet", conc_cases(ctx.rng("gb"), ctx.scale(20, 300), True), model=False, monitor=monitor, shrink=False, timeout=ctx.scale(300, 3000),
                nontrivial=lambda l, o: tuple(o))
